@@ -267,8 +267,10 @@ def run(ctx):
     need(crp is not None, "nested _check_retry_payloads missing")
     cc = ctx.cfg(crp)
     fc = ctx.facts(crp)
-    tests = [n for n in cc.nodes if n.kind == "test" and ("self._req_attempts >= self._max_attempts", True)
-             in __import__("afkverif.cfg", fromlist=["cond_atoms"]).cond_atoms(n.stmt.test, True)]
+    # the test whose false outcome means "attempts remain" (it may also send other cases - stopping - down the exhaustion arm)
+    _ca = __import__("afkverif.cfg", fromlist=["cond_atoms"]).cond_atoms
+    tests = [n for n in cc.nodes if n.kind == "test" and (("self._req_attempts >= self._max_attempts", True) in _ca(n.stmt.test, True) or (
+        "self._req_attempts >= self._max_attempts", False) in _ca(n.stmt.test, False))]
     need(tests, "attempt-limit test not found in %s" % crp.qname)
     t = tests[0]
     false_succ = [s for s, lab in cc.succ[t.id] if lab and lab[0] == "cond" and not lab[2]]
